@@ -41,14 +41,19 @@ pub fn exec(rec: &Value, _st: &mut State) -> Value {
     let mut plane = Plane3::new(UnitVec3::new_normalize(nv), d);
     let mut t = iso3(&rec["T"]);
     t.translation.vector *= s;
-    mesh.transform(&t);
-    plane = plane.transform_by(&t);
+    if gi_or(rec, "side", 0) != 1 {
+        mesh.transform(&t);
+        plane = plane.transform_by(&t);
+    }
     match op {
         "section" => {
             let stol = match gi_or(rec, "stol16", 0) { 0 => None, k => Some(k as f64 / 16.0 * s) };
             match mesh.section(&plane, stol) {
                 Err(_) => json!({"ok": false}),
                 Ok(curves) => {
+                    // `side` = 1: the section is taken in the mesh's own frame and the resulting CURVES are moved by T
+                    // (Curve3::transformed_by) - the same curves must come out as when mesh and plane are moved first
+                    let curves = if gi_or(rec, "side", 0) == 1 { curves.iter().map(|c| c.transformed_by(&t)).collect::<Vec<_>>() } else { curves };
                     let cs: Vec<Vec<Vec<i64>>> = curves.iter().map(|c| c.points().iter().map(|p| qp3s(&mut q, p, s)).collect()).collect();
                     let lens: Vec<i64> = curves.iter().map(|c| q.q(c.length() / s, QX)).collect();
                     json!({"ok": true, "curves": cs, "lens": lens, "finite": q.finite})
